@@ -15,10 +15,15 @@ VARIABLES ctx, kind, nul       \* kind = "?" while unset
 vars == <<ctx, kind, nul>>
 
 Int_ == [type |-> <<"integer">>]
+\* "sizedint": an integer with bounds 1..40 generated with --min-sized-ints (uint8): the sized path must keep the
+\* pointer of a nullable integer
 Kinds == {"string", "integer", "number", "boolean", "arrint", "obj",
-          "strdate", "strtime", "strdt", "stripv4", "stripv6", "intdt", "numdate", "booltime"}
+          "strdate", "strtime", "strdt", "stripv4", "stripv6", "intdt", "numdate", "booltime", "sizedint"}
+FieldCtx == {"req", "opt", "nested"}       \* positions that are struct fields (value validators apply)
 AddlKinds == {"string", "integer", "number", "boolean"}
-Contexts == {"req", "opt", "item", "item2", "def", "nested", "addl"}
+\* "map": value of a property-less object with typed additionalProperties (a Go map); "maparr": element of an array
+\* that is such a value (map[string][]T)
+Contexts == {"req", "opt", "item", "item2", "def", "nested", "addl", "map", "maparr"}
 
 LeafOf(k) ==
   CASE k = "string"  -> [type |-> <<"string">>]
@@ -35,6 +40,7 @@ LeafOf(k) ==
     [] k = "intdt"   -> [type |-> <<"integer">>, format |-> "date-time"]
     [] k = "numdate" -> [type |-> <<"number">>, format |-> "date"]
     [] k = "booltime" -> [type |-> <<"boolean">>, format |-> "time"]
+    [] k = "sizedint" -> ("type" :> <<"integer">>) @@ ("minimum" :> JNum(4)) @@ ("maximum" :> JNum(160))
 
 Values == << JNull, JBool(TRUE), JBool(FALSE), JNum(0), JNum(4), JNum(2), JNum(-12),
              JStr(<<>>), JStr(<<"a">>), JFmt("date"), JFmt("time"), JFmt("date-time"), JFmt("ipv4"), JFmt("ipv6"),
@@ -42,7 +48,7 @@ Values == << JNull, JBool(TRUE), JBool(FALSE), JNum(0), JNum(4), JNum(2), JNum(-
              JObj(<<>>), JObj(<<KV("k", JNum(0))>>), JObj(<<KV("k", JStr(<<"a">>))>>) >>
 
 Wrap(x) == JObj(<<KV("x", x)>>)
-Valid0(k) == CASE k \in {"string"} -> JStr(<<"a">>) [] k \in {"integer", "number", "intdt", "numdate"} -> JNum(4)
+Valid0(k) == CASE k \in {"string"} -> JStr(<<"a">>) [] k \in {"integer", "number", "intdt", "numdate", "sizedint"} -> JNum(4)
                [] k \in {"boolean", "booltime"} -> JBool(TRUE) [] k = "arrint" -> JArr(<<JNum(0)>>)
                [] k = "obj" -> JObj(<<KV("k", JNum(0))>>)
                [] k = "strdate" -> JFmt("date") [] k = "strtime" -> JFmt("time") [] k = "strdt" -> JFmt("date-time")
@@ -55,7 +61,8 @@ Unit(c, k, n) ==
       xobj(s, r) == ("type" :> <<"object">>) @@ ("properties" :> <<[k |-> "x", s |-> s]>>)
                     @@ (IF r THEN "required" :> <<"x">> ELSE <<>>)
       arr(s) == [type |-> <<"array">>, items |-> s]
-      base == [prop |-> "C03", ctx |-> c, kind |-> k, nullable |-> n, defs |-> <<>>]
+      base == [prop |-> "C03", ctx |-> c, kind |-> k, nullable |-> n, defs |-> <<>>, opts |-> [minSizedInts |-> k = "sizedint"], nobuild |-> <<>>]
+      mapOf(s) == [type |-> <<"object">>, additionalProperties |-> [k |-> "s", s |-> s]]
   IN
   CASE c = "req"   -> base @@ [schema |-> xobj(leaf, TRUE), docs |-> [i \in DOMAIN Values |-> Wrap(Values[i])]]
     [] c = "opt"   -> base @@ [schema |-> xobj(leaf, FALSE), docs |-> [i \in DOMAIN Values |-> Wrap(Values[i])]]
@@ -68,6 +75,9 @@ Unit(c, k, n) ==
                           docs |-> [i \in DOMAIN Values |-> Wrap(Values[i])]]
     [] c = "nested" -> base @@ [schema |-> xobj(("type" :> <<"object">>) @@ ("properties" :> <<[k |-> "y", s |-> leaf]>>), TRUE),
                                 docs |-> [i \in DOMAIN Values |-> Wrap(JObj(<<KV("y", Values[i])>>))]]
+    [] c = "map"    -> base @@ [schema |-> xobj(mapOf(leaf), TRUE), docs |-> [i \in DOMAIN Values |-> Wrap(JObj(<<KV("e", Values[i])>>))]]
+    [] c = "maparr" -> base @@ [schema |-> xobj(mapOf(arr(leaf)), TRUE),
+                                docs |-> [i \in DOMAIN Values |-> Wrap(JObj(<<KV("e", JArr(<<ok, Values[i]>>))>>))]]
     [] c = "addl"  -> base @@ [schema |-> ("type" :> <<"object">>) @@ ("properties" :> <<[k |-> "p", s |-> Int_]>>)
                                           @@ ("additionalProperties" :> [k |-> "s", s |-> leaf]),
                                docs |-> [i \in DOMAIN Values |-> JObj(<<KV("p", JNum(4)), KV("e", Values[i])>>)]]
@@ -82,6 +92,8 @@ At(unit, d) ==
     [] unit.ctx = "item2"  -> ObjVal(d, "x").a[2].a[2]
     [] unit.ctx = "nested" -> ObjVal(ObjVal(d, "x"), "y")
     [] unit.ctx = "addl"   -> ObjVal(d, "e")
+    [] unit.ctx = "map"    -> ObjVal(ObjVal(d, "x"), "e")
+    [] unit.ctx = "maparr" -> ObjVal(ObjVal(d, "x"), "e").a[2]
 
 \* Go typed decode of the position (encoding/json; mapstructure.Decode for additional properties:
 \* deviation "AddlIntTruncates": any JSON number converts to int, null becomes the zero value)
@@ -91,7 +103,7 @@ ImplAccepts(unit, d, D) ==
        IF v.t = "null" THEN TRUE
        ELSE IF unit.kind = "integer" /\ "AddlIntTruncates" \in D THEN v.t = "num"
        ELSE ImplValue(<<>>, leaf, v, D)
-  ELSE ImplValue(<<>>, leaf, v, D)
+  ELSE ImplValue(<<>>, leaf, v, D) /\ (unit.kind = "sizedint" => LeafOK(leaf, v, D))      \* numericValidator of the field
 
 RefVerdict(unit, d)    == Valid(unit.defs, unit.schema, d, {}, "decl", NoLim)
 DevVerdict(unit, d, D) == Valid(unit.defs, unit.schema, d, D, "decl", NoLim)
@@ -106,7 +118,7 @@ AsIsOK   == Set => LET unit == u IN Agree(unit, Devs)
 
 Init == ctx \in Contexts /\ nul \in BOOLEAN /\ kind = "?"
 Pick == /\ kind = "?"
-        /\ kind' \in (IF ctx = "addl" THEN AddlKinds ELSE Kinds)
+        /\ kind' \in (IF ctx = "addl" THEN AddlKinds ELSE IF ctx \in FieldCtx THEN Kinds ELSE Kinds \ {"sizedint"})
         /\ (ctx = "addl" => ~nul)
         /\ UNCHANGED <<ctx, nul>>
 Next == Pick
